@@ -550,6 +550,82 @@ fn e2e_stream_case(prop: &str, idx: u64, tmproot: &std::path::Path) -> CaseRec {
     }
 }
 
+/// `strip_ansi_escaping` end to end: --cram-compat (single-script executor, which has to carry the key into the
+/// configuration of the one script) x inline x document defaults, each in {unset, true, false}. Two test cases with
+/// the same configuration print `ESC [ 1 m foo ESC [ 0 m` resp. `ESC [ 31 m bar ESC [ m`; the expectations are the
+/// lines without the sequences: both succeed iff the key is in effect with `true`.
+fn e2e_strip_case(prop: &str, idx: u64, tmproot: &std::path::Path) -> CaseRec {
+    let mut r = idx;
+    let mut take = |n: u64| {
+        let v = r % n;
+        r /= n;
+        v as u8
+    };
+    let compat = take(2) == 1;
+    let inline = take(3);
+    let defaults = take(3);
+    let dir = tmproot.join(format!("strip-{idx}"));
+    let _ = std::fs::remove_dir_all(&dir);
+    std::fs::create_dir_all(dir.join("tmp")).unwrap();
+    let name = |v: u8| ["", "true", "false"][v as usize];
+    let mut doc = String::new();
+    if defaults != 0 {
+        doc.push_str(&format!("---\ndefaults: {{strip_ansi_escaping: {}}}\n---\n\n", name(defaults)));
+    }
+    let cfg = if inline != 0 { format!(" {{strip_ansi_escaping: {}}}", name(inline)) } else { String::new() };
+    for (t, cmd, exp) in [("A", "printf '\\033[1mfoo\\033[0m\\n'", "foo\n"), ("B", "printf '\\033[31mbar\\033[m\\n'", "bar\n")] {
+        doc.push_str(&format!("# {t}\n\n```scrut{cfg}\n$ {cmd}\n{exp}```\n\n"));
+    }
+    let p = dir.join("doc.md");
+    std::fs::write(&p, &doc).unwrap();
+    let mut cmd = std::process::Command::new(scrut_bin());
+    cmd.arg("test").arg("-r").arg("json");
+    if compat {
+        cmd.arg("--cram-compat");
+    }
+    let out = cmd.arg(&p).current_dir(&dir).env("TMPDIR", dir.join("tmp")).output().expect("run scrut");
+    let stdout = String::from_utf8_lossy(&out.stdout).to_string();
+    let json: Option<serde_json::Value> = stdout.find('[').and_then(|p| serde_json::from_str(&stdout[p..]).ok());
+    let kinds: Vec<String> = (0..2).map(|i| json.as_ref().and_then(|j| j.pointer(&format!("/{i}/result/kind")).and_then(|v| v.as_str()).map(|s| s.to_string())).unwrap_or("?".into())).collect();
+    // 1 = the sequences were removed, 2 = they were not
+    let observed = match kinds.iter().map(|k| k.as_str()).collect::<Vec<_>>().as_slice() {
+        ["success", "success"] => 1u8,
+        ["malformed_output", "malformed_output"] => 2,
+        _ => 0,
+    };
+    let want_true = [inline, defaults].into_iter().find(|v| *v != 0) == Some(1);
+    let layers = format!("inline={} defaults={} format default=unset{}", if inline == 0 { "unset" } else { name(inline) }, if defaults == 0 { "unset" } else { name(defaults) }, if compat { ", --cram-compat (single-script executor)" } else { "" });
+    let mut fails = vec![];
+    if observed == 0 {
+        fails.push(("C16:e2e-strip-no-verdict".into(), format!("document {doc:?} ({layers}): exit {:?}, kinds {:?}: {}", out.status.code(), kinds, String::from_utf8_lossy(&out.stderr).chars().take(300).collect::<String>())));
+    } else if (observed == 1) != want_true {
+        let class = if compat && want_true { "C16:script-strip-ansi-dropped" } else { "C16:strip-ansi-precedence-e2e" };
+        fails.push((class.into(), format!("document {doc:?}: the ANSI escape sequences were {}, the value in effect for strip_ansi_escaping is {} ({layers})", if observed == 1 { "removed" } else { "NOT removed" }, want_true)));
+    }
+    let _ = std::fs::remove_dir_all(&dir);
+    let mk = |v: u8| {
+        let mut a = A::default();
+        a.s[4] = v;
+        a
+    };
+    let mut fmt = A::default();
+    fmt.s[1] = if compat { 1 } else { 2 };
+    fmt.s[2] = if compat { 3 } else { 1 };
+    let shown = match observed {
+        1 => "1",
+        2 if inline == 0 && defaults == 0 => "-",
+        2 => "2",
+        _ => "?",
+    };
+    CaseRec {
+        op: format!("effectiveflags 0000 {} {} {} - case=strip.{idx}", mk(inline).field(), mk(defaults).field(), fmt.field()),
+        impl_out: format!("-,{},{},-,{shown},-,-,-", if compat { "1" } else { "2" }, if compat { "3" } else { "1" }),
+        oracle_fail: keep(prop, fails),
+        nontrivial: true,
+        tags: vec!["e2e-strip".into(), format!("e2e-strip:compat={compat}"), format!("e2e-strip:in-effect={want_true}"), format!("e2e-strip:inline={inline},defaults={defaults}")],
+    }
+}
+
 /// the configured environment across the test cases of one document: the value a test case sees for a variable is
 /// the one of the highest layer that sets it for THAT test case (inline, then the document's defaults); only when
 /// no layer sets it, it is what the earlier test cases left in the shell (C12). An earlier test case's configured or
@@ -692,6 +768,9 @@ pub fn run(ctx: &Ctx, prop: &str) {
     ctx.run_stream("e2e-environment-sequence-exhaustive", 2 * 3 * 4 * 3, true, |idx| Some(e2e_env_sequence_case(prop, idx, &tr)));
     let tr = tmproot.clone();
     ctx.run_stream("e2e-output-stream-exhaustive", 3 * 2 * 4 * 4, true, |idx| Some(e2e_stream_case(prop, idx, &tr)));
+    // strip_ansi_escaping: --cram-compat x inline x defaults
+    let tr = tmproot.clone();
+    ctx.run_stream("e2e-strip-ansi-exhaustive", 2 * 3 * 3, true, |idx| Some(e2e_strip_case(prop, idx, &tr)));
     let _ = std::fs::remove_dir_all(&tmproot);
 }
 
@@ -716,6 +795,7 @@ pub fn replay(_prop: &str, op: &str) -> bool {
         let c = match tag.split_once('.') {
             Some(("crlf", i)) => e2e_crlf_case("C16", i.parse().unwrap_or(0), &tmproot),
             Some(("stream", i)) => e2e_stream_case("C16", i.parse().unwrap_or(0), &tmproot),
+            Some(("strip", i)) => e2e_strip_case("C16", i.parse().unwrap_or(0), &tmproot),
             Some(("envseq", i)) => e2e_env_sequence_case("C16", i.parse().unwrap_or(0), &tmproot),
             _ => return false,
         };
